@@ -53,7 +53,9 @@ def gen_backup(seed, tier):
         elif k == "touch":
             ops.append(["touch", p, ch.pick(W, ("which", i), ["mtime", "ctime", "both"])])
         elif k == "backup":
-            ops.append(["backup", p, ch.chance(W, ("ts", i), 0.8), ch.chance(W, ("upload", i), 0.9)])
+            ops.append(["backup", p, ch.chance(W, ("ts", i), 0.8), ch.chance(W, ("upload", i), 0.9),
+                        # the file is rewritten while its upload is in flight (between check_file and did_upload)
+                        ch.pick(W, ("race", i), [None, None, None, None, "same-size", "new-size"])])
         elif k == "rename":
             ops.append(["rename", p, ch.pick(W, ("p2", i), paths)])
         elif k == "delete":
@@ -123,7 +125,8 @@ def exec_backup(case):
                 bdb = bdb_mod.get_backupdb(dbfile)
                 probe("restart")
             elif k == "backup":
-                _, p, use_ts, do_upload = op
+                _, p, use_ts, do_upload = op[:4]
+                race = op[4] if len(op) > 4 else None
                 if p not in fs:
                     continue
                 f = fs[p]
@@ -148,8 +151,15 @@ def exec_backup(case):
                     if do_upload:
                         ncap[0] += 1
                         newcap = b"URI:CHK:%s-%d" % (hashlib.sha256(b"%d-%d" % (f["content"], f["size"])).hexdigest()[:12].encode(), f["content"])
+                        checked = (f["size"], f["mtime"], f["ctime"])
+                        if race:
+                            R.advance(2)
+                            fs[p] = {"content": f["content"] + 1000, "size": f["size"] + (0 if race == "same-size" else 7),
+                                     "mtime": int(R.seconds()), "ctime": int(R.seconds())}
+                            probe("file-rewritten-during-upload")
                         r.did_upload(newcap)
-                        last[p] = (f["size"], f["mtime"], f["ctime"], newcap)
+                        # the cap belongs to the version that was checked and uploaded, not to what the file has become since
+                        last[p] = checked + (newcap,)
                         probe("upload")
             elif k == "snapshot":
                 _, ents, create = op
